@@ -41,10 +41,14 @@ Section Propagate.
 
   Ltac hyp := first [exact He | exact Hperi | exact Hth].
   Ltac sp := unfold El, T; rewrite ?pn0, ?pe0, ?pi0, ?pw0, ?pM0, ?pO0, ?pbs; cbn [t_small_e t_tau];
-             fold El; fold T.
+             fold El; fold T;
+             change (GA gen_oe_arg_perigee) with w0; change (GA gen_oe_mean_anomaly) with M0;
+             change (GA gen_oe_right_ascension) with O0; change (GA gen_oe_inclination) with i0;
+             change (P_Sgp4Init.w0 argp_deg) with w0; change (P_Sgp4Init.M0 ma_deg) with M0;
+             change (P_Sgp4Init.O0 raan_deg) with O0; change (P_Sgp4Init.i0 incl_deg) with i0.
 
   Lemma ts_spec : GB gen_nn0_ts = ts.
-  Proof. unfold gen_nn0_ts. field. Qed.
+  Proof. unfold gen_nn0_ts. cbv zeta. field. Qed.
 
   Lemma mdf_spec : GA gen_oe_mean_anomaly + GA gen_sgp4_xmdot * ts = MDF El T.
   Proof. unfold MDF. rewrite xmdot_spec by hyp. sp. reflexivity. Qed.
@@ -56,5 +60,223 @@ Section Propagate.
     unfold Mp, delta_w, delta_M. sp. fold El. unfold aE. fold M0 w0.
     pose proof (eta_bounds _ _ _ _ _ _ _ He Hperi) as Hb. fold El in Hb.
     field. lra.
+  Qed.
+
+  Lemma delta_terms :
+    ts * GA gen_sgp4_omgcof_v1
+    + GA gen_sgp4_xmcof_v3 * ((1 + GA gen_sgp4_eta_v2 * cos (MDF El T)) ^ 3 - GA gen_sgp4_delmo_v2)
+    = delta_w El T + delta_M El T.
+  Proof.
+    rewrite omgcof_spec, xmcof_spec, eta_spec, delmo_spec by hyp.
+    unfold delta_w, delta_M. sp. unfold aE. fold M0 w0.
+    pose proof (eta_bounds _ _ _ _ _ _ _ He Hperi) as Hb. fold El in Hb.
+    field. lra.
+  Qed.
+
+  Lemma omega_spec : GB gen_nn0_omega = w El T.
+  Proof.
+    unfold gen_nn0_omega. rewrite ts_spec, mdf_spec, delta_terms.
+    unfold w, wDF. rewrite omgdot_spec by hyp. sp. fold w0. ring.
+  Qed.
+
+  Lemma xnode_spec : GB gen_nn0_xnode = Om El T.
+  Proof.
+    unfold gen_nn0_xnode. rewrite ts_spec. rewrite xnodot_spec, xnodcf_spec by hyp.
+    unfold Om, ODF. sp. fold O0. unfold gen_oe_right_ascension. fold O0.
+    replace (P_Sgp4Init.O0 raan_deg) with O0 by reflexivity. ring.
+  Qed.
+
+  Lemma e_unclamped_spec : GB gen_nn0_guard0 = e_unclamped El T.
+  Proof.
+    unfold gen_nn0_guard0, gen_nn0_tempe. rewrite ts_spec, xmp_spec. rewrite c4_spec, c5_spec by hyp.
+    unfold e_unclamped, gen_sgp4_sinXMO. sp. fold M0.
+    replace (sin (GA gen_oe_mean_anomaly)) with (sin M0) by reflexivity. ring.
+  Qed.
+
+  Lemma a_spec : GB gen_nn0_a = a El T.
+  Proof.
+    unfold gen_nn0_a. rewrite ts_spec. rewrite aodp_spec, c1_spec, d2_spec, d3_spec, d4_spec by hyp.
+    unfold a. sp. ring.
+  Qed.
+
+  Lemma IL_spec :
+    GB gen_nn0_xmp + GB gen_nn0_omega + GB gen_nn0_xnode + GA gen_sgp4_xnodp * GB gen_nn0_templ = IL El T.
+  Proof.
+    rewrite xmp_spec, omega_spec, xnode_spec. unfold gen_nn0_templ. rewrite ts_spec.
+    rewrite xnodp_spec, t2cof_spec, t3cof_spec, t4cof_spec, t5cof_spec by hyp.
+    unfold IL. sp. ring.
+  Qed.
+
+  (* the (clamped) eccentricity the long-period terms use *)
+  Definition ecl := clamp_e (e_unclamped El T).
+
+  Lemma axn_spec : GB gen_nn0_axn = axN El T ecl.
+  Proof.
+    unfold gen_nn0_axn. cbv zeta. fold (GB gen_nn0_guard0). rewrite omega_spec, e_unclamped_spec.
+    reflexivity.
+  Qed.
+
+  Lemma ecl_sq : 0 < 1 - ecl ^ 2.
+  Proof. pose proof (clamp_e_range (e_unclamped El T)) as R. fold ecl in R. nra. Qed.
+
+  Lemma a_pos_of_guard : 1 <= a El T -> 0 < a El T.
+  Proof. lra. Qed.
+
+  Lemma ayn_spec : a El T <> 0 -> GB gen_nn0_ayn = ayN El T ecl.
+  Proof.
+    intros Ha. unfold gen_nn0_ayn. cbv zeta. fold (GB gen_nn0_guard0).
+    rewrite omega_spec, e_unclamped_spec, a_spec. rewrite aycof_spec by hyp.
+    fold (clamp_e (e_unclamped El T)). fold ecl.
+    unfold ayN, ayNL, beta. sp. fold i0.
+    replace (sin (P_Sgp4Init.i0 incl_deg)) with (sin i0) by reflexivity.
+    pose proof ecl_sq as Q. rewrite pow2_sqrt by lra.
+    unfold k2, A30. field. split; [lra|exact Ha].
+  Qed.
+
+  Lemma xlt_spec : a El T <> 0 -> GB gen_nn1_xlt = ILT El T ecl.
+  Proof.
+    intros Ha. unfold gen_nn1_xlt. cbv zeta. rewrite IL_spec, axn_spec, e_unclamped_spec, a_spec.
+    fold (clamp_e (e_unclamped El T)). fold ecl.
+    rewrite xlcof_spec by hyp.
+    unfold ILT, ILL, axN, beta. sp. fold i0.
+    replace (sin (P_Sgp4Init.i0 incl_deg)) with (sin i0) by reflexivity.
+    pose proof ecl_sq as Q. rewrite pow2_sqrt by lra.
+    unfold k2, A30. field. split; [exact Hth|]. split; [lra|exact Ha].
+  Qed.
+
+  Lemma elsq_spec : a El T <> 0 -> GB gen_nn0_elsq = eL2 El T ecl.
+  Proof. intros Ha. unfold gen_nn0_elsq, eL2. rewrite axn_spec, ayn_spec by exact Ha. reflexivity. Qed.
+
+  Lemma pl_spec : a El T <> 0 -> GB gen_nn0_pl = pL El T ecl.
+  Proof. intros Ha. unfold gen_nn0_pl, pL. rewrite a_spec, elsq_spec by exact Ha. reflexivity. Qed.
+
+  Lemma betal_spec : a El T <> 0 -> GB gen_nn0_betal = sqrt (1 - eL2 El T ecl).
+  Proof. intros Ha. unfold gen_nn0_betal. rewrite elsq_spec by exact Ha. reflexivity. Qed.
+
+  (* ---------- the short-period finishing map, for any value Ew of E + omega ---------- *)
+  Variable Ew : R.
+  Notation "'GC' f" := (f e0 incl_deg raan_deg argp_deg ma_deg n_revday bstar ts Ew) (at level 9, f at level 9).
+  Hypothesis Ha : 0 < a El T.
+  Hypothesis HeL : eL2 El T ecl < 1.
+
+  Lemma Ha' : a El T <> 0.
+  Proof. lra. Qed.
+
+  Lemma fin_ecosE_spec : GC gen_nn0_fin_ecosE = ecosE El T ecl Ew.
+  Proof.
+    unfold gen_nn0_fin_ecosE, gen_nn0_fin_cosEPW, gen_nn0_fin_sinEPW, ecosE.
+    rewrite axn_spec, (ayn_spec Ha'). reflexivity.
+  Qed.
+
+  Lemma fin_esinE_spec : GC gen_nn0_fin_esinE = esinE El T ecl Ew.
+  Proof.
+    unfold gen_nn0_fin_esinE, gen_nn0_fin_cosEPW, gen_nn0_fin_sinEPW, esinE.
+    rewrite axn_spec, (ayn_spec Ha'). reflexivity.
+  Qed.
+
+  Lemma fin_r_spec : GC gen_nn0_fin_r = r El T ecl Ew.
+  Proof. unfold gen_nn0_fin_r, r. rewrite a_spec, fin_ecosE_spec. reflexivity. Qed.
+
+  Lemma ecosE_lt_1 : ecosE El T ecl Ew < 1.
+  Proof.
+    unfold ecosE. set (x := axN El T ecl) in *. set (y := ayN El T ecl) in *.
+    assert (H : eL2 El T ecl = x ^ 2 + y ^ 2) by reflexivity. rewrite H in HeL.
+    pose proof (sin2_cos2 Ew) as SC. unfold Rsqr in SC.
+    set (c := cos Ew) in *. set (s := sin Ew) in *.
+    assert (Q : (x * c + y * s) ^ 2 <= x ^ 2 + y ^ 2).
+    { assert (E2 : (x ^ 2 + y ^ 2) * (s * s + c * c) - (x * c + y * s) ^ 2 = (x * s - y * c) ^ 2) by ring.
+      rewrite SC in E2. pose proof (pow2_ge_0 (x * s - y * c)). lra. }
+    destruct (Rlt_dec (x * c + y * s) 1) as [L|L]; [exact L|]. exfalso.
+    assert (1 <= (x * c + y * s) ^ 2) by nra. lra.
+  Qed.
+
+  Lemma r_pos : 0 < r El T ecl Ew.
+  Proof. unfold r. pose proof ecosE_lt_1. apply Rmult_lt_0_compat; lra. Qed.
+
+  Lemma pL_pos : 0 < pL El T ecl.
+  Proof. unfold pL. apply Rmult_lt_0_compat; lra. Qed.
+
+  Lemma fin_invR_spec : GC gen_nn0_fin_invR = 1 / r El T ecl Ew.
+  Proof. unfold gen_nn0_fin_invR. rewrite fin_r_spec. reflexivity. Qed.
+
+  Lemma sinu_arg_spec :
+    GB gen_nn0_a * GC gen_nn0_fin_invR *
+      (GC gen_nn0_fin_sinEPW - GB gen_nn0_ayn - GB gen_nn0_axn * GC gen_nn0_fin_esinE * (1 / (1 + GB gen_nn0_betal)))
+    = sinu El T ecl Ew.
+  Proof.
+    rewrite a_spec, fin_invR_spec, axn_spec, (ayn_spec Ha'), fin_esinE_spec, (betal_spec Ha').
+    unfold gen_nn0_fin_sinEPW, sinu. pose proof r_pos.
+    assert (0 <= sqrt (1 - eL2 El T ecl)) by apply sqrt_pos.
+    field. split; lra.
+  Qed.
+
+  Lemma cosu_arg_spec :
+    GB gen_nn0_a * GC gen_nn0_fin_invR *
+      (GC gen_nn0_fin_cosEPW - GB gen_nn0_axn + GB gen_nn0_ayn * GC gen_nn0_fin_esinE * (1 / (1 + GB gen_nn0_betal)))
+    = cosu El T ecl Ew.
+  Proof.
+    rewrite a_spec, fin_invR_spec, axn_spec, (ayn_spec Ha'), fin_esinE_spec, (betal_spec Ha').
+    unfold gen_nn0_fin_cosEPW, cosu. pose proof r_pos.
+    assert (0 <= sqrt (1 - eL2 El T ecl)) by apply sqrt_pos.
+    field. split; lra.
+  Qed.
+
+  Lemma fin_u_spec : GC gen_nn0_fin_u = atan2 (sinu El T ecl Ew) (cosu El T ecl Ew).
+  Proof. unfold gen_nn0_fin_u. cbv zeta. rewrite sinu_arg_spec, cosu_arg_spec. reflexivity. Qed.
+
+  Lemma fin_sin2u_spec : GC gen_nn0_fin_sin2u = sin2u El T ecl Ew.
+  Proof. unfold gen_nn0_fin_sin2u. cbv zeta. rewrite sinu_arg_spec, cosu_arg_spec. reflexivity. Qed.
+
+  Lemma fin_cos2u_spec : GC gen_nn0_fin_cos2u = cos2u El T ecl Ew.
+  Proof.
+    unfold gen_nn0_fin_cos2u.
+    replace (GB gen_nn0_a * GC gen_nn0_fin_invR *
+             (GC gen_nn0_fin_cosEPW - GB gen_nn0_axn + GB gen_nn0_ayn * GC gen_nn0_fin_esinE * (1 / (1 + GB gen_nn0_betal))))
+      with (cosu El T ecl Ew) by (symmetry; apply cosu_arg_spec).
+    reflexivity.
+  Qed.
+
+  Ltac fin_norm :=
+    cbv zeta; rewrite ?fin_r_spec, ?fin_cos2u_spec, ?fin_sin2u_spec, ?fin_u_spec, ?fin_esinE_spec, ?fin_invR_spec,
+                      ?(pl_spec Ha'), ?(betal_spec Ha'), ?a_spec, ?xnode_spec;
+    unfold gen_sgp4_x3thm1, gen_sgp4_x1mth2, gen_sgp4_x7thm1, gen_sgp4_sinIO; rewrite ?cosIO_spec; fold El.
+
+  Lemma fin_rk_spec : GC gen_nn0_fin_rk = rk El T ecl Ew.
+  Proof.
+    unfold gen_nn0_fin_rk. fin_norm. unfold rk, k2. pose proof pL_pos.
+    field. lra.
+  Qed.
+
+  Lemma fin_uk_spec : GC gen_nn0_fin_uk = uk El T ecl Ew (atan2 (sinu El T ecl Ew) (cosu El T ecl Ew)).
+  Proof.
+    unfold gen_nn0_fin_uk. fin_norm. unfold uk, k2. pose proof pL_pos.
+    field. lra.
+  Qed.
+
+  Lemma fin_xnodek_spec : GC gen_nn0_fin_xnodek = Ok El T ecl Ew.
+  Proof.
+    unfold gen_nn0_fin_xnodek. fin_norm. unfold Ok, k2. pose proof pL_pos.
+    field. lra.
+  Qed.
+
+  Lemma fin_xinc_spec : GC gen_nn0_fin_xinc = ik El T ecl Ew.
+  Proof.
+    unfold gen_nn0_fin_xinc. fin_norm. unfold ik, k2. sp. pose proof pL_pos.
+    field. lra.
+  Qed.
+
+  (* velocities carry the unit factor XKMPER/aE * XMNPDA/86400 = 106.30225 (km/s per er/min) *)
+  Lemma fin_rdotk_spec : GC gen_nn0_fin_rdotk = rdotk El T ecl Ew * (XKMPER / aE * min_per_day / 86400).
+  Proof.
+    unfold gen_nn0_fin_rdotk. fin_norm. unfold rdotk, rdot, n, ke, k2, XKMPER, aE, min_per_day.
+    pose proof pL_pos. pose proof r_pos. assert (0 < sqrt (a El T)) by (apply sqrt_lt_R0; exact Ha).
+    field. repeat split; lra.
+  Qed.
+
+  Lemma fin_rfdotk_spec : GC gen_nn0_fin_rfdotk = rfdotk El T ecl Ew * (XKMPER / aE * min_per_day / 86400).
+  Proof.
+    unfold gen_nn0_fin_rfdotk. fin_norm. unfold rfdotk, rfdot, n, ke, k2, XKMPER, aE, min_per_day.
+    pose proof pL_pos. pose proof r_pos. assert (0 < sqrt (a El T)) by (apply sqrt_lt_R0; exact Ha).
+    field. repeat split; lra.
   Qed.
 End Propagate.
